@@ -37,7 +37,7 @@ func init() {
 			"reference evaluator = intended lexical semantics (calibrated, 0 disagreements on the unchanged tree)",
 			"errors compared by error-ness only",
 		},
-		NCases:  func(c *core.Ctx) int { return thorN(c, 3000, 60000) },
+		NCases:  func(c *core.Ctx) int { return thorN(c, 6000, 80000) },
 		MustSee: []string{"escaped_closure_calls", "shadowed_names", "canary_reads", "battery_calls"},
 		Run:     c03Run,
 	})
@@ -63,31 +63,7 @@ func c03Run(c *core.Ctx, i int) *core.Result {
 	}
 	// battery: every global function, twice, after the program has finished
 	if res.Verdict != core.Violated {
-	battery:
-		for _, f := range g.TopFns {
-			if p, ok := genv.M[f.Name]; !ok || p == nil {
-				continue // not defined because the program failed earlier
-			}
-			for _, arg := range []int64{1, 5} {
-				call := []*lang.N{lang.BatteryCall(f, arg)}
-				bt := lang.Plain.Program(call)
-				ref.Trace, s.Trace = nil, nil
-				ref.Steps = 0
-				bv, berr := ref.Run(call, genv)
-				if berr != nil && berr.Kind == "budget" {
-					// the reference state is now ahead of the interpreter's: stop here
-					res.Ev("battery_stopped_ref_budget", 1)
-					break battery
-				}
-				bo := s.Eval(bt, int64(400*ref.Steps+100000))
-				res.Evals++
-				res.Ev("battery_calls", 1)
-				if key, detail := CompareRun(bv, berr, ref.Trace, bo, s.Trace); key != "" {
-					res.Violate("battery:"+key, fmt.Sprintf("after the program (reference: %s, interpreter: %s), %s: %s", RefStr(rv, rerr), OutStr(o), bt, detail), text+bt)
-					break battery
-				}
-			}
-		}
+		RunBattery(res, g, ref, genv, s, text, []int64{1, 5}, fmt.Sprintf(" (reference: %s, interpreter: %s)", RefStr(rv, rerr), OutStr(o)))
 	}
 	twice := false
 	for _, n := range ref.Activations {
